@@ -125,6 +125,31 @@ impl Reporter {
         self.violations.len()
     }
 
+    /// A check may split its work over worker processes: a worker exports what it found (violations, hits of known
+    /// findings, machinery errors) together with a payload of its own counters ...
+    pub fn export_part(&self, payload: Value) -> Value {
+        json!({
+            "violations": self.violations.iter().map(|v| json!({"signature": v.signature, "description": v.description, "replay": v.replay})).collect::<Vec<_>>(),
+            "known_hits": self.known_hits.iter().map(|(k, v)| json!({"signature": k, "description": v.0, "cases": v.1})).collect::<Vec<_>>(),
+            "machinery": self.machinery_errors,
+            "payload": payload,
+        })
+    }
+    /// ... and the parent merges it (one violation per signature is kept, as always); returns the payload.
+    pub fn import_part(&mut self, part: &Value) -> Value {
+        for v in part["violations"].as_array().cloned().unwrap_or_default() {
+            self.violation(Violation { signature: v["signature"].as_str().unwrap_or("").to_string(), description: v["description"].as_str().unwrap_or("").to_string(), replay: v["replay"].clone() });
+        }
+        for k in part["known_hits"].as_array().cloned().unwrap_or_default() {
+            let e = self.known_hits.entry(k["signature"].as_str().unwrap_or("").to_string()).or_insert((k["description"].as_str().unwrap_or("").to_string(), 0));
+            e.1 += k["cases"].as_u64().unwrap_or(0) as usize;
+        }
+        for m in part["machinery"].as_array().cloned().unwrap_or_default() {
+            self.machinery_errors.push(m.as_str().unwrap_or("").to_string());
+        }
+        part["payload"].clone()
+    }
+
     /// Like `finish`, but every output line goes through `emit` (for binaries that have redirected stdout).
     pub fn finish_with(self, emit: impl Fn(&str)) -> i32 {
         self.finish_impl(&emit)
